@@ -68,8 +68,9 @@ def generate(spec):
             if r < 0.45:
                 op = {"op": "delete", "id": rng.randrange(0, next_id + 1)}
             elif r < 0.75:
-                op = {"op": "create", "type": rng.choice(["a", "b"])}
-                next_id += 1
+                op = {"op": "create", "type": rng.choice(["a", "b", "a", "b", "team"])}
+                # a team takes its id first and creates two members while it initialises (nested creation): three ids
+                next_id += 3 if op["type"] == "team" else 1
             elif r < 0.82:
                 sp = [["a", rng.choice([1, 2])], ["b", rng.choice([0, 1])]]
                 op = {"op": "configure", "spec": sp}
